@@ -202,16 +202,22 @@ PROPS['C08'] = dict(
 PROPS['C04'] = dict(
     id='C04', domains=['writer', 'unm'],
     n=dict(quick=dict(writer=500, unm=1500), thorough=dict(writer=30000, unm=60000)),
-    theorems=[('Properties.C04', [])],
+    theorems=[('Properties.C04', ['C04_offsets_are_positions', 'C04_write_appends_at_the_reported_offset'])],
     kinds={'panic', 'wrong-position', 'eof-offset', 'unreadable-file', 'reopen-mismatch'},
-    rule='TODO', level_text='TODO', level_note='TODO',
+    rule='writer: 1 worker, 2-7 records of sizes around the limit, limits from half a record to unlimited, compression on/off, ratios 0.25-2, warcinfo on/off, flush on/off, 1-6 operations (single writes, batches of 2-3, the same record object written again, Rotate), a repeating name generator with empty in-progress suffix; every response is checked by opening a fresh reader at (file, offset) and by a sequential read (same offsets, EOF offset = file length); unm: for every cleanly read record of every generated stream (junk between records, plain and gzip) a fresh reader opened at the reported offset must return the same record',
+    level_text="Proved in Coq for every sequence of Write (single, batched, repeated objects) and Rotate, every limit/compression/warcinfo configuration and every injective name generator: every response without error names a file that in the end contains the serialized (stamped) record as exactly one entry starting at exactly the reported offset, with BytesWritten its uncompressed length (C04_offsets_are_positions, by an invariant over all reachable writer states); Write appends at the end of the current file, whose size is the reported offset. That a reader positioned there returns that record is the subject of C01 (stage theorems) and is evaluated on the implementation for every response. The writer model agrees with the implementation on names, offsets, sizes (incl. gzip member sizes) and callbacks for every generated sequence. The defect 'first record of a rotated file reports the size of the previous file' was found here and repaired.",
+    level_note='Trusted: Coq kernel, extraction, harness. The file system is abstract: a file is the list of records appended to it; entry sizes are plain lengths or the gzip member size (oracle: klauspost gzip at the default level, computed outside gowarc). float64 ratio scaling is an oracle. The name generator is assumed injective (PatternNameGenerator with {serial}). os.OpenFile/Stat/Sync/Close/Rename are assumed to behave as the model says; their failure paths are not modelled. Concurrent workers are C09/C10.',
+    assumptions=[],
 )
 PROPS['C13'] = dict(
     id='C13', domains=['writer'],
     n=dict(quick=dict(writer=600), thorough=dict(writer=30000)),
-    theorems=[('Properties.C13', [])],
+    theorems=[('Properties.C13', ['C13_every_file_begins_with_its_warcinfo', 'C13_fit_rule', 'C13_names_and_in_progress_state', 'C13_callback_arguments'])],
     kinds={'panic', 'warcinfo-rule', 'fit-rule', 'bad-name', 'open-file-left', 'callback-args', 'unreadable-file'},
-    rule='TODO', level_text='TODO', level_note='TODO',
+    rule='writer domain (see C04): files are read back sequentially: first record is the warcinfo naming the file, exactly one, all others carry its id; no record appended beyond the limit to a file that already holds data (scaled declared length); names unique, compression suffix iff compressed, no in-progress suffix after Close; callback gets final name, true size, warcinfo id',
+    level_text='Proved in Coq over all reachable states of the sequential writer: with a warcinfo generator every file begins with the warcinfo record built for its own name and every other record in it was stamped with the id of that record; a record is appended to a file that already holds data only if size + (scaled) declared length fits the limit, otherwise a new file is started; file names are exactly the names of the generator in order (never reused, for an injective generator), only the last file can be in progress; the callback receives final name, true size and warcinfo id. A record is one entry of one file by construction of the model (never split). Model tied to warcfile.go by exact agreement of responses, file sizes and callbacks on every generated sequence.',
+    level_note='Trusted: Coq kernel, extraction, harness. The file system is abstract: a file is the list of records appended to it; entry sizes are plain lengths or the gzip member size (oracle: klauspost gzip at the default level, computed outside gowarc). float64 ratio scaling is an oracle. The name generator is assumed injective (PatternNameGenerator with {serial}). os.OpenFile/Stat/Sync/Close/Rename are assumed to behave as the model says; their failure paths are not modelled. ',
+    assumptions=[],
 )
 
 PROPS['C20'] = dict(
@@ -250,9 +256,12 @@ PROPS['C10'] = dict(
 PROPS['C12'] = dict(
     id='C12', domains=['crash'], no_model={'crash': True},
     n=dict(quick=dict(crash=300), thorough=dict(crash=10000)),
-    theorems=[('Properties.C12', [])],
+    theorems=[('Properties.C12', ['C12_final_files_are_never_written_again', 'C12_acknowledged_records_are_already_appended'])],
     kinds={'panic', 'crash-unsafe'},
-    rule='TODO', level_text='TODO', level_note='TODO',
+    rule='crash: writer sequences as in C04 under the verif hooks; at EVERY file-system effect point (create, first and second half of every write, sync, close, rename, callback) the directory is snapshotted (= what a kill at that instant leaves): final-named files equal their final content, in-progress files are prefixes of their final content, every record acknowledged before the snapshot is fully present at its reported file and offset; scenarios: plain, a leftover in-progress file of an earlier killed process under the first name, Rotate from another goroutine while a record is half written',
+    level_text='PARTIAL (the OS half - what a killed process leaves on disk, rename atomicity - is assumed and only observed). Proved in Coq about the effect trace of every writer run: after a file has been renamed to its final name no record is ever appended to it again, so at every kill point final-named files are complete; appends are whole records to the single in-progress file; a record is acknowledged only after its append. The effect points of the implementation are instrumented with the verif hooks and every snapshot is checked against the final directory.',
+    level_note='Trusted: Coq kernel, extraction, harness. The file system is abstract: a file is the list of records appended to it; entry sizes are plain lengths or the gzip member size (oracle: klauspost gzip at the default level, computed outside gowarc). float64 ratio scaling is an oracle. The name generator is assumed injective (PatternNameGenerator with {serial}). os.OpenFile/Stat/Sync/Close/Rename are assumed to behave as the model says; their failure paths are not modelled. In-process snapshots stand for kills (kernel-buffered writes of a killed process persist); no real SIGKILL is sent.',
+    assumptions=[],
 )
 
 PROPS['C11'] = dict(
